@@ -1,6 +1,7 @@
 package c18
 
 import (
+	"sort"
 	"fmt"
 	"sync/atomic"
 
@@ -42,6 +43,34 @@ func contextAlphabet() []piece {
 	progen.F8Rejected(func(meta string, body []*N) {
 		alpha = append(alpha, piece{Group: "contexts", Name: meta, Prog: body})
 	})
+	// a function literal that is rejected in its PARAMETER LIST, before its body is looked at: a default that names
+	// nothing, the same parameter twice, a default in front of a parameter without one, a parameter named like the
+	// function - as a named function, as a value, as a call argument, inside a block and inside another function
+	bad := map[string][]Param{
+		"default-undefined":     {{Name: "a", Def: Id("nosuch")}},
+		"default-undefined-2nd": {{Name: "a"}, {Name: "b", Def: Id("nosuch")}},
+		"duplicate-parameter":   {{Name: "a"}, {Name: "a"}},
+		"default-before-plain":  {{Name: "a", Def: Int(1)}, {Name: "b"}},
+		"named-like-function":   {{Name: "pf"}},
+		"default-negative":      {{Name: "a", Def: Pre("-", Int(1))}},
+	}
+	var kinds []string
+	for k := range bad {
+		kinds = append(kinds, k)
+	}
+	sort.Strings(kinds)
+	for _, k := range kinds {
+		ps := bad[k]
+		body := []*N{Return(Int(1))}
+		alpha = append(alpha,
+			piece{Group: "contexts", Name: "parameter-list " + k + " named-function", Prog: []*N{FuncDecl("pf", ps, body...)}},
+			piece{Group: "contexts", Name: "parameter-list " + k + " function-value", Prog: []*N{Var("pv", Func("pf", ps, body...))}},
+			piece{Group: "contexts", Name: "parameter-list " + k + " call-argument", Prog: []*N{Expr(call("add", Func("pf", ps, body...), Int(1)))}},
+			piece{Group: "contexts", Name: "parameter-list " + k + " in-block", Prog: []*N{If(Bool(true), []*N{Var("pv", Func("pf", ps, body...))}, nil)}},
+			piece{Group: "contexts", Name: "parameter-list " + k + " after-statement", Prog: []*N{Var("before", Int(1)), FuncDecl("pf", ps, body...)}},
+			piece{Group: "contexts", Name: "parameter-list " + k + " in-function", Prog: []*N{FuncDecl("outerpf", nil, Var("pv", Func("pf", ps, body...)), Return(Int(2)))}},
+		)
+	}
 	return alpha
 }
 
